@@ -64,7 +64,7 @@ def specTrailer : Nat → Bytes → Bool → Bytes → TrailerS
   | 0, _, _, _ => .exc .RecursionError
   | fuel + 1, r, eof, acc =>
     match readlineFlat r eof with
-    | .tooLong => .exc .ValueError
+    | .tooLong => .exc .ProtocolError
     | .stall => .stall
     | .line l r' =>
       if l.getLast? != some 10 then .exc .NetworkError
@@ -102,7 +102,7 @@ def specChunked {D} (dc : Decoder D) (fuel0 : Nat) : Nat → Bytes → Bool → 
             | .error e => .exc e
             | .ok a2 =>
               match readlineFlat (r1.drop size) eof with
-              | .tooLong => .exc .ValueError
+              | .tooLong => .exc .ProtocolError
               | .stall => .stall
               | .line nl r3 =>
                 if nl.length > 2 then .exc .ProtocolError
@@ -145,7 +145,7 @@ def finishChunkedSpec {D} (w : Wire) (st : Status) (f : Fields) (sc : Bool) (b :
   | .exc e => specOf w (.exc e) [] [] true
   | .stall => specOf w .stalled [] [] false
   | .ok a t r' =>
-    match parseFields true f t with
+    match parseFields false f t with
     | none => specOf w (.exc .ValueError) [] [] true
     | some f' => specOf w (.ok st f' a.body) a.notified r' sc
 
